@@ -57,7 +57,10 @@ def _symbols(draw, used):
     out = []
     for _ in range(draw(st.integers(1, 2))):
         kind = draw(st.sampled_from(("class", "function")))
-        pool = gen.CLASS_NAMES if kind == "class" else gen.FUNC_NAMES
+        # among the names: ones that are also names of builtins / keywords-in-waiting (a package may well export a
+        # helper called `filter` or a class called `Warning`), a private-looking one, one with digits
+        pool = (gen.CLASS_NAMES + ("Warning", "Exception_", "_Hidden", "Model2")) if kind == "class" else \
+            (gen.FUNC_NAMES + ("filter", "format", "type", "id", "_helper", "step2"))
         free = [n for n in pool if n not in used]
         if not free:
             break
@@ -134,8 +137,16 @@ def command(draw, pkg):
 def plans(draw, enum_every=4, enum_cap=None):
     pkg = draw(package_spec())
     cmds = draw(st.lists(command(pkg), min_size=1, max_size=4))
-    follow = draw(st.integers(0, 5))
-    if follow >= 4:
+    follow = draw(st.integers(0, 6))
+    if follow == 6:
+        # a real run that dies on a full disk while closing one of the modules it generates (a torn module stays behind),
+        # then a DRY run with the same options over that output
+        base = dict(cmds[-1], dry=False, restart=False, emit=draw(st.sampled_from(("class", "function", "argparse"))),
+                    fault={"frac": draw(st.floats(0, 0.999)), "kind": "err", "target": "close_py", "errno_i": 0,
+                           "keep": draw(st.sampled_from((0.3, 0.5, 0.7)))})
+        cmds[-1] = base
+        cmds.append(dict(base, dry=True, fault=None))
+    elif follow >= 4:
         # the classic history: a real run, then a DRY run with exactly the same options over the tree it left behind
         base = dict(cmds[-1], dry=False, fault=None, restart=False)
         if follow == 5:
@@ -410,6 +421,11 @@ def _resolve_fault(f, io_events):
             return None
     else:
         cands = [e for e in io_events if e["kind"] in seams.MUTATING] if f.get("target") == "mut" else io_events
+        if f.get("target") == "close_py":
+            # the close of a generated module (a torn .py file is what the next run has to cope with)
+            cands = [e for e in io_events if e["kind"] == "close_w" and str(e.get("path", "")).endswith(".py")
+                     and e.get("nbytes", 0) > 40 and not str(e.get("path", "")).endswith("__init__.py")] or \
+                    [e for e in io_events if e["kind"] == "close_w" and e.get("nbytes", 0) > 40]
         if not cands:
             cands = io_events
         ev = cands[min(int(f["frac"] * len(cands)), len(cands) - 1)]
